@@ -242,6 +242,8 @@ MkDeclX(s) ==
                        !.obj = Tup([i \in 1..Len(s.obj) |-> IF s.obj[i] = "oP" THEN OP ELSE ObjOf(s.obj[i])]),
                        !.quads = IF \E i \in 1..Len(s.obj) : s.obj[i] = "o6" THEN <<Q1>> ELSE <<>>,
                        !.reads = <<Read("C07.b", "value", TT, ""), Read("C07.b", "value", T0, ""), Read("C07.b", "value", TF, "")>>
+                                 \* the horizon symbols seen from the collocation times
+                                 \o (IF s.meth = "DC" THEN <<Read("C07.b", "sample", Plus(Times(X(1), TT), TF), "roots")>> ELSE <<>>)
                                  \o (IF Family = "C09" /\ s.rhs \notin {"R8", "R9"} THEN <<Read("C09.c", "sample", P(1), "control")>> ELSE <<>>)]
       d2 == WithHorizon(d1, s.hz, IF s.seed % 2 = 0 THEN One ELSE Q(-1, 2), TBase(IF s.grid = "free" THEN "uni" ELSE s.grid, N))
       d3 == [d2 EXCEPT !.init = GuessSeq(s.gs, d2, N)]
